@@ -812,7 +812,7 @@ def gen_single(ctx, env):
                     impl = check_history(ctx, env, w, ops, tag)
                     ctx.case((tag, rnd), nontrivial=True, stratum=f'dev:{dev}',
                              sample={'tag': tag, 'obs': [o[:3] for o in impl]})
-                    ctx.stat(f'verdict:{impl[1][1]}:{impl[1][2]}')
+                    ctx.stat('verdict:' + ':'.join(str(x) for x in impl[1][1:3]))
 
 
 def loop_worlds(env, rng):
@@ -853,7 +853,7 @@ def gen_loops(ctx, env):
                 ops += [('val', 0, leaf), ('val', 0, leaf)]
                 tag = f'loop:{variant}:{kind}'
                 impl = check_history(ctx, env, w, ops, tag)
-                ctx.case((tag, rnd), nontrivial=True, stratum=f'loop:{variant}:{impl[1][1]}',
+                ctx.case((tag, rnd), nontrivial=True, stratum='loop:' + variant + ':' + ':'.join(str(x) for x in impl[1][1:2]),
                          sample={'tag': tag, 'obs': [o[:3] for o in impl]})
 
 
@@ -900,7 +900,7 @@ def gen_anchors(ctx, env):
                     ops.append(('val', 0, leaf))
                     tag = f'anchor:{name}:{kind}{si if si is not None else ""}:{kt}'
                     impl = check_history(ctx, env, w, ops, tag)
-                    ctx.case((tag, rnd), nontrivial=True, stratum=f'anchor:{name}:{impl[0][1]}',
+                    ctx.case((tag, rnd), nontrivial=True, stratum=f'anchor:{name}:' + ':'.join(str(x) for x in impl[0][1:2]),
                              sample={'tag': tag, 'obs': [o[:3] for o in impl]})
 
 
